@@ -54,6 +54,9 @@ def cases(tier, rng):
     per = 2 if tier == "quick" else 5
     for i in range(n_long):
         out.append({"kind": "long", "seed": int(rng.integers(1 << 30)), "n_media": per})
+    # two fixed media from the design-phase probes that are accepted silently and are known to blow up
+    out.append({"kind": "long", "seed": 1, "n_media": 1, "fixed": {"poles_dt": [{"kind": "drude", "wp": 0.5, "gamma": 0.0}], "eps_inf": 1.0, "cf": 0.99, "n": 6, "box": "periodic"}})
+    out.append({"kind": "long", "seed": 2, "n_media": 1, "fixed": {"poles_dt": [{"kind": "lorentz", "w0": 1.0, "gamma": 0.0, "deps": 2.0}], "eps_inf": 1.0, "cf": 0.99, "n": 6, "box": "periodic"}})
     return out
 
 
@@ -68,7 +71,7 @@ def run_case(case):
             _recurrence(case["seed"] + j, r)
     else:
         for j in range(case["n_media"]):
-            _long(case["seed"] + j, r)
+            _long(case["seed"] + j, r, case.get("fixed"))
     return r.to_dict()
 
 
@@ -164,7 +167,7 @@ def _recurrence(seed, r):
     r.sample = wit
 
 
-def _long(seed, r):
+def _long(seed, r, fixed=None):
     import warnings
 
     import jax
@@ -182,8 +185,15 @@ def _long(seed, r):
     dt = _dt(spacing, cf)
     n = int(rng.integers(4, 9))
     kind = ["pec", "periodic"][int(rng.integers(2))]
+    if kind == "periodic" and rng.random() < 0.6:
+        n = int(rng.choice([4, 6, 8]))  # even periodic boxes carry the Nyquist mode, the first to go unstable
     eps_inf = float(rng.uniform(1, 4))
     poles = _poles(rng, dt)
+    if fixed:
+        cf, n, kind, eps_inf = fixed["cf"], fixed["n"], fixed["box"], fixed["eps_inf"]
+        dt = _dt(spacing, cf)
+        poles = [{k: (v / dt if k in ("w0", "wp", "gamma") else v) for k, v in p.items()} for p in fixed["poles_dt"]]
+        r.branch("fixed_probe_medium")
     NSTEPS = 10_000
     s = scenes.default_scene(shape=(n, n, n), steps=NSTEPS, spacing=spacing)
     s["courant"] = cf
@@ -235,8 +245,17 @@ def _long(seed, r):
     # reference model
     c1, c2, c3 = (np.asarray(x)[:, 0, 0, 0, 0] for x in (arrays.dispersive_c1, arrays.dispersive_c2, arrays.dispersive_c3))
     inv_eps = float(np.asarray(arrays.inv_permittivities)[0, 0, 0, 0])
-    zmax = ade_stability.max_root_modulus(c1, c2, c3, inv_eps, 4.0 * cf**2 * inv_eps)
-    ref_unstable = zmax > 1.0 + 1e-9
+    # largest curl-curl eigenvalue this box can carry: 4*sum_a sin^2(k_a/2) with k_a = 2*pi*m/n (periodic) or
+    # pi*m/n, m <= n-1 (PEC); the Nyquist mode exists only for even periodic n
+    if kind == "periodic":
+        s2 = 1.0 if n % 2 == 0 else float(np.sin(np.pi * (n - 1) / (2 * n)) ** 2)
+    else:
+        s2 = float(np.sin(np.pi * (n - 1) / (2 * n)) ** 2)
+    nu2_max = (cf**2 / 3.0) * 12.0 * s2 * inv_eps
+    zmax = ade_stability.max_root_modulus(c1, c2, c3, inv_eps, nu2_max)
+    # growth by a factor 10 in energy within 1e4 steps needs |z| > 10**(1/2e4) = 1.000115; below 1e-6 the scan only
+    # sees the round-off of the double root at z = 1 that every Drude pole has
+    ref_unstable = zmax > 1.0 + 1e-6
     desc["reference_max_root"] = zmax
     bad = ~np.isfinite(en) | (en > 10.0 * e0)
     ratio = float(np.nanmax(np.where(np.isfinite(en), en, np.inf)) / e0) if e0 > 0 else float("inf")
